@@ -70,6 +70,12 @@ CLAIMED = {
              "Partial for despawns: the step laws that make repeated/crossing deletes and duplicate spawns harmless are proved; the unbounded convergence theorem for histories with despawns from arbitrary peers is not — those histories are decided on every run by projecting each uuid of real sessions (spawns/despawns from random peers, several per frame, marks before the connection, clients leaving) onto the slice (count and tracker entry predicted after every frame) and by the oracle (no duplicate uuid ever, equal uuid sets on all connected peers at quiescence, tracker maps consistent). New joins are C03.",
         note="Trusted: as for C02 (scheduler/Commands/renet modelled, projection glue); poll and the end-of-frame flush are one model action, justified by the dumped schedule (poll follows the only sync point) and checked by the correspondence.",
         technique="Lean 4 proof (pipeline invariants for spawn epochs, any N, all interleavings) + per-uuid trace correspondence + oracle", ref="§7 C01"),
+    "C05": dict(
+        text="Machine-checked proof: a child's parent link is replicated by the component mechanism with an unconditional host relay, so the component-slice theorems are proved for both relay modes and instantiated: links converge over any sequence of single-writer epochs (one writer may re-parent in consecutive frames), any N, every interleaving; once drained nothing is sent any more; no peer echoes an applied link; bounded messages per operation for a host writer. "
+             "A functional model of bevy_hierarchy's add_child proves the handlers keep Parent/Children well formed: the child is under the new parent, listed exactly once, under no other parent. "
+             "Tie: translator facts on all four token sites, the relay and the set_parent/add_child pair; real sessions (chains, fan-out, moves, consecutive re-parents, hierarchies created in the marking frame) projected per child onto the slice (parent uuid and token after every frame); oracle (same parent on all peers, children lists consistent and duplicate-free, traffic stops).",
+        note="Trusted: as for C02; bevy_hierarchy's push_children/update_old_parents are modelled from their 0.14 source, tied by the oracle's children-list checks only; conflicting simultaneous re-parents by different peers are outside the property.",
+        technique="Lean 4 proof (component-slice invariants generalised over the relay mode; hierarchy well-formedness) + per-child trace correspondence + oracle", ref="§7 C05"),
 }
 PENDING_REASON = "not claimed yet: machinery for this property is still being built (see DESIGN.md §10 build order); no check is registered until its theorems and tie run"
 
